@@ -140,7 +140,12 @@ Place13(pre, f, post) ==
    [src |-> "@each(w in [1,2])\n" \o Texts(pre) \o f.s \o "@end", line |-> 2 + Sum(pre) + f.dl, c |-> "in-each"],
    [src |-> Texts(pre) \o "@if(false)\nA\n@else\n\n" \o f.s \o "@end", line |-> 5 + Sum(pre) + f.dl, c |-> "in-else"],
    [src |-> Texts(pre) \o "@for(i = 0; i < 1; i++)" \o Texts(post) \o f.s \o "\n@end", line |-> 1 + Sum(pre) + Sum(post) + f.dl, c |-> "in-for"]}
+\* constructs that the end of the input cuts open: the unexpected token is the end-of-input token, which sits just past the
+\* last byte - after a final line break that is the next line (C19)
+EofFaults == {Seg("@if(true)\nb\n", 2), Seg("@if(true)\nb", 1), Seg("{{ 1 +\n", 1), Seg("{{ 1 +", 0), Seg("@each(v in [1])\n\n", 2),
+              Seg("@insert(\"a\")\nbody\n", 2), Seg("@if(true)$r$\n", 1), Seg("@if(true)\n@if(false)\n@end\n", 3), Seg("{{ [1,\n2\n", 2)}
 Cases13(n) == UNION {Place13(pre, f, post) : pre \in SeqsUpTo(Pre13, n), f \in Faults13, post \in {<<>>, <<Seg("a\nb\n", 2)>>}}
+              \cup {[src |-> Texts(pre) \o f.s, line |-> 1 + Sum(pre) + f.nl, c |-> "cut-by-eof"] : pre \in SeqsUpTo(Pre13, n), f \in EofFaults}
 
 Data13 == <<[k |-> "ob", v |-> [t |-> "obj", v |-> <<[k |-> "k", v |-> [t |-> "int", b |-> "z", o |-> 1]]>>]]>>
 
